@@ -470,6 +470,7 @@ let rich_set = [
   "rich/inc.twig", "{% include './loop.twig' %}|{% include 'rich/sub/leaf.twig' with {'mk': 'W'} %}|{% include './loop.twig' with {'x': 'nn'} only %}|{% include 'rich/nope2.twig' ignore missing %}|{{ v.A }}{{ v.D }}";
   "rich/apply.twig", "{% apply upper %}abc{{ mk }}{% endapply %}{% spaceless %}<a> <b> </b> </a>{% endspaceless %}{% verbatim %}{{ raw }}{% endverbatim %}{# c #}{{- ' x ' -}}";
   "rich/filters.twig", "{{ x|replace('x', 'X') }}|{{ x|length }}|{{ '<b>'|escape }}|{{ '<b>'|raw }}|{{ 3.14159|round(2) }}|{{ x|slice(0,2) }}|{{ x|trim }}|{{ x|title }}|{{ 'a b'|url_encode }}|{{ x|striptags }}|{{ 5|abs }}|{{ [3,1,2]|sort|join(',') }}|{{ [1,2]|merge(['z'])|join }}|{{ {'k': mk}|keys|join }}|{{ [1,2,3]|reverse|first }}";
+  "rich/shared.twig", "{{ shared.sp|merge([mk])|join(',') }}|{{ shared.sp|merge([x], [mk])|length }}|{{ shared.rec.Tags|merge([mk, x])|join }}|{{ shared.names|merge([mk])|join }}|{{ shared.m|merge({'k': mk})|keys|join }}|{{ shared.sp|sort|join }}|{{ shared.sp|reverse|first }}|{{ shared.sp|slice(0, 2)|merge([mk])|join }}|{% for v in shared.sp %}{{ v }}{% endfor %}|{% set l = shared.sp %}{% set l = l|merge([mk]) %}{{ l|last }}{{ shared.sp|length }}";
   "rich/big.twig", String.concat "" (List.init 300 (fun i -> Printf.sprintf "<div class=\"c%d\">{{ x }} {%% if mk %%}{{ mk|upper }}{%% endif %%} text %d</div>\n" i i)) ]
 
 let fixed_rich r ~id ~tier ~mode =
